@@ -65,7 +65,7 @@ impl Prop for C01 {
     }
 
     fn stages(&self, tier: Tier) -> Vec<Stage<FileSpec>> {
-        vec![stage("files", gen::file_spec(tier), tier.pick(4000, 150_000))]
+        vec![stage("files", gen::file_spec(tier), tier.pick(4000, 60_000))]
     }
 
     fn rule(&self) -> String {
